@@ -35,6 +35,9 @@ type vestMachine struct {
 	govOwner                                                                    bool
 	typesRemoved                                                                int
 	manyPools                                                                   int
+	// vestingOwner: one history in three has a fourth owner that is itself a continuous vesting account - part of
+	// its balance is locked, part of that is staked, the rest is liquid
+	vestingOwner sdk.AccAddress
 	otherKinds                                                                  []sdk.AccAddress // existing accounts of the other vesting kinds
 	rewardAddressSet                                                            int
 	directCliff                                                                 int
@@ -63,6 +66,9 @@ func (m *vestMachine) ownerAddrs() []sdk.AccAddress {
 	}
 	if m.govOwner {
 		out = append(out, mustAddr(GovAuthority()))
+	}
+	if m.vestingOwner != nil {
+		out = append(out, m.vestingOwner)
 	}
 	return out
 }
